@@ -399,6 +399,12 @@ def compare(interp, op, a, b, st, node):
             res = False
         if res is not None:
             return vconst(res if name == "is" else not res)
+        # x = A if c else None ; `x is None`  is  `not c`  (when A cannot be None)
+        if b.kind == "none" and isinstance(a.extra, tuple) and len(a.extra) == 4 and a.extra[0] == "phi":
+            _, c, va, vb = a.extra
+            ra, rb = compare(interp, op, va, b, st, node), compare(interp, op, vb, b, st, node)
+            if ra.has_const and rb.has_const and isinstance(ra.const, bool) and isinstance(rb.const, bool) and ra.const != rb.const:
+                return vbool(c if ra.const else T("not", c), labels)
         return vbool(T(name, a.term, b.term), labels)
     if name in ("in", "notin"):
         res = None
